@@ -283,7 +283,7 @@ unit("stale.process", props=["C05", "C03", "C08", "C10", "C14", "C18"],
      functions=[(REL, "_get_stale_nodes.<locals>.process"), (REL, "_get_stale_nodes.<locals>.process_no_stale_ancestor")],
      inlined=["process_no_stale_ancestor"],
      assumptions=["contract of _to_naive_utc_time (contracts/times.py): times are instants", "T16 datetime objects are truthy",
-                  "generator expressions over the predecessors act pointwise (decided on a generic predecessor); any / max / safe_max as in Python",
+                  "generator expressions over the predecessors act pointwise (decided on a generic predecessor); any / max as in Python; safe_max: the contract proved on the real function for any number of values by util.safe_max",
                   "pairwise distinct modified times are NOT assumed: the spec's strict > is taken from the statement ('older than')"],
      min_obligations=6)(run_process)
 
